@@ -195,12 +195,9 @@ func guarded(bound time.Duration, f func()) (panicMsg string, hungIn string) {
 		mu.Unlock()
 		f()
 	}()
-	select {
-	case <-done:
-		mu.Lock()
-		defer mu.Unlock()
-		return panicMsg, ""
-	case <-time.After(bound):
+	// A call which is still going after the bound is only called hung when it is blocked in the same place at two
+	// samples one bound apart, or still running after ten bounds: a loaded machine must not turn slow into hung.
+	sample := func() string {
 		buf := make([]byte, 1<<20)
 		n := runtime.Stack(buf, true)
 		mu.Lock()
@@ -210,15 +207,35 @@ func guarded(bound time.Duration, f func()) (panicMsg string, hungIn string) {
 			if strings.HasPrefix(blk, fmt.Sprintf("goroutine %d [", id)) {
 				lines := strings.Split(blk, "\n")
 				state := lines[0]
+				if k := strings.Index(state, ","); k > 0 && strings.HasSuffix(state, "]:") {
+					state = state[:k] + "]:" // without the waiting time
+				}
 				fn := ""
 				if len(lines) > 1 {
 					fn = lines[1]
 				}
-				return "", state + " " + fn
+				return state + " " + fn
 			}
 		}
-		return "", "unknown"
+		return "unknown"
 	}
+	prev := ""
+	for k := 0; k < 10; k++ {
+		select {
+		case <-done:
+			mu.Lock()
+			defer mu.Unlock()
+			return panicMsg, ""
+		case <-time.After(bound):
+		}
+		cur := sample()
+		blocked := !strings.Contains(cur, "[running") && !strings.Contains(cur, "[runnable")
+		if blocked && cur == prev {
+			return "", cur
+		}
+		prev = cur
+	}
+	return "", prev
 }
 
 // runRMCase executes a case on the real engine and fills in the observations.
